@@ -116,6 +116,7 @@ func consumeNumber(data []byte, pos int, isFlag bool) int {
 	}
 	start := data[pos]
 	seenDot := start == '.'
+	seenExp := false
 	pos++
 	for ; pos < len(data); pos++ {
 		c := data[pos]
@@ -123,7 +124,7 @@ func consumeNumber(data []byte, pos int, isFlag bool) int {
 		case '0', '1', '2', '3', '4', '5', '6', '7', '8', '9':
 			continue
 		case '.':
-			if seenDot { // .5.5 is interpreted as 0.5 0.5
+			if seenDot || seenExp { // .5.5 is interpreted as 0.5 0.5, 1e2.5 as 100 0.5
 				return pos
 			}
 			// else continue: floating point
@@ -137,6 +138,7 @@ func consumeNumber(data []byte, pos int, isFlag bool) int {
 		default:
 			// accept numbers and exponents
 			if c == 'e' || c == 'E' {
+				seenExp = true
 				continue
 			}
 			return pos
